@@ -5,8 +5,10 @@ import (
 	"strings"
 	"time"
 
+	"github.com/hyperjumptech/grule-rule-engine/engine"
 	"github.com/hyperjumptech/grule-rule-engine/pkg"
 
+	"verif/internal/obs"
 	"verif/internal/ref"
 )
 
@@ -32,4 +34,8 @@ func reporterDetails(err error) string {
 func sinkTimeEqual(sink interface{}, want ref.Val) bool {
 	t, ok := sink.(time.Time)
 	return ok && t.Equal(want.T)
+}
+
+func listenersOf(r *obs.Recorder) []engine.GruleEngineListener {
+	return []engine.GruleEngineListener{r}
 }
